@@ -5,5 +5,6 @@ CONSTANTS
   LastChanceAny = {}
   WalkSorted = TRUE
   AssumeUserRange = TRUE
+  QueryTypes = {"names"}
 INVARIANTS ProxyIdentsDistinct
 CHECK_DEADLOCK FALSE
